@@ -6,10 +6,10 @@ func init() {
 	register(&Prop{
 		ID: "C10",
 		Explanation: "TWAP, structural clauses: the accumulators advance by the OLD record's last spot price (P0 into P0, P1 into P1, log2 of P0 into the geometric one) times the elapsed canonical milliseconds between the record's time and the new time; the arithmetic strategy reads the accumulator of the quote side, the geometric one inverts exactly in the two documented cases; " +
-			"an interval is flagged when the end record's error time is at/after the start time or the start record's error time equals its time; spot-price errors, zero or clamped prices stamp the error time with the block time; the record at-or-before a time is found by reverse iteration ending at that time; pruning never deletes the newest record before the keep time; new records update the most-recent and historical indexes together.",
+			"an interval is flagged when the end record's error time is at/after the start time or the start record's error time equals its time; spot-price errors, zero or clamped prices stamp the error time with the block time; the record at-or-before a time is found by reverse iteration ending at that time; pruning never deletes the newest record before the keep time; new records update the most-recent and historical indexes together. Round 8: the per-block record update (advance to block time, new spot prices and error time from getSpotPrices, never from a later height/time), record creation for every denom pair of a new pool, the hooks/listeners that mark a pool changed (and the pool modules firing them on every successful swap/join), the changed-pool set encoding, the unit helpers and the pruning start state.",
 		NotCovered:  []string{"TWAP = time-weighted mean as a value (integral over price histories)", "bounds by min/max price", "reciprocity of the geometric directions", "precision"},
 		Assumptions: []string{"osmomath.Exp2 / log2 accuracy (C13)"},
-		MinObl:      68,
+		MinObl:      111,
 		Run:         runC10,
 	})
 }
